@@ -26,7 +26,10 @@ STRICT = ['U4c', 'h', '%4c', ',', '&&', '#c', '-4c', '|', '+', '4', '16.', '*cle
           # a character the LEXER does not know, appended / prepended / inserted (reported by the lexer, not the parser)
           '4c§', '§4D', '4§f#', '*M3€/4', '4r¿', '€', '=1§', '*clef§G2',
           # blanks at the end of the cell (also of the LAST cell of a line): reported, and kept verbatim
-          'c4 ', '4zz ', '4d ', '4r  ', '4c\xa0']
+          'c4 ', '4zz ', '4d ', '4r  ', '4c\xa0',
+          # truncated interpretations (the recovering parser hands the listener an incomplete tree)
+          '*xywh', '*xywh-1', '*xywh-1:10,20,300', '*xywh-1:2,3,45', '*xywh-1:,2,3,4', '*xywh-1:1,2,3,', '*xywh-1:a,b,c,d', '*MM', '*met(', '*M4/',
+          '*clefX2', '*k[f#', '*>', '*tb', '*staff', '*staffx']
 STOPPER = ['4cU', '4c%', '=1zz', '*clefG2x', '*zz', '*M4/4x', '4rU', '.x']      # a complete token + something that cannot continue it (D7)
 _HIST = []
 
